@@ -515,10 +515,16 @@ func ruleLoadFilter(c *Ctx, r *R) {
 		r.undecided("rawLoadPackage", "-", "not found")
 		return
 	}
-	// the _test.go filter
+	// the _test.go filter (in rawLoadPackage or a helper it calls)
 	var filt *ast.IfStmt
 	var filtLoop *ast.RangeStmt
-	ast.Inspect(fd.Body, func(n ast.Node) bool {
+	var filtFn *ast.FuncDecl
+	for _, hfd := range c.withHelpers(fd) {
+		if filt != nil {
+			break
+		}
+		filtFn = hfd
+	ast.Inspect(hfd.Body, func(n ast.Node) bool {
 		rs, ok := n.(*ast.RangeStmt)
 		if !ok {
 			return true
@@ -540,6 +546,7 @@ func ruleLoadFilter(c *Ctx, r *R) {
 		}
 		return true
 	})
+	}
 	if !r.check(filt != nil, "_test.go filter", c.Pos(fd), "files ending in _test.go are skipped", "rawLoadPackage no longer skips files ending in _test.go") {
 		return
 	}
@@ -572,8 +579,33 @@ func ruleLoadFilter(c *Ctx, r *R) {
 		return
 	}
 	iter := c.Src(loadLoop.X)
-	flows := iter == kept
-	if !flows {
+	flows := iter == kept && filtFn == fd
+	if !flows && filtFn != fd {
+		// the list comes from the helper that holds the filter: every successful return of the helper hands back the kept list
+		fromHelper := false
+		ast.Inspect(fd.Body, func(n ast.Node) bool {
+			if as, ok := n.(*ast.AssignStmt); ok && len(as.Rhs) == 1 && c.Src(as.Lhs[0]) == iter {
+				if call, ok := unparen(as.Rhs[0]).(*ast.CallExpr); ok && c.DeclOf(c.Callee(call)) == filtFn {
+					fromHelper = true
+				}
+			}
+			return true
+		})
+		okRets := true
+		ast.Inspect(filtFn.Body, func(n ast.Node) bool {
+			if _, isLit := n.(*ast.FuncLit); isLit {
+				return false
+			}
+			if rs, ok := n.(*ast.ReturnStmt); ok && len(rs.Results) == 2 && isIdent(rs.Results[1], "nil") {
+				if got := c.Src(rs.Results[0]); got != kept && got != "nil" {
+					okRets = false
+				}
+			}
+			return true
+		})
+		flows = fromHelper && okRets
+	}
+	if !flows && filtFn == fd {
 		// matches = m
 		ast.Inspect(fd.Body, func(n ast.Node) bool {
 			if as, ok := n.(*ast.AssignStmt); ok && len(as.Lhs) == 1 && c.Src(as.Lhs[0]) == iter && c.Src(as.Rhs[0]) == kept && as.Pos() > filt.Pos() && as.Pos() < loadLoop.Pos() {
@@ -753,6 +785,28 @@ func ruleLoadKahn(c *Ctx, r *R) {
 			}
 		}
 	}
+	if !k2 {
+		// indexed selection: slices.IndexFunc(keys, func(k) bool { return len(deps[k]) == 0 })
+		ast.Inspect(second.Body, func(n ast.Node) bool {
+			call, ok := n.(*ast.CallExpr)
+			if !ok || !strings.HasSuffix(c.CalleeName(call), "slices.IndexFunc") || len(call.Args) != 2 {
+				return true
+			}
+			fl, ok := unparen(call.Args[1]).(*ast.FuncLit)
+			if !ok || len(fl.Body.List) != 1 || len(fl.Type.Params.List) != 1 {
+				return true
+			}
+			rs, ok := fl.Body.List[0].(*ast.ReturnStmt)
+			if !ok || len(rs.Results) != 1 {
+				return true
+			}
+			pn := fl.Type.Params.List[0].Names[0].Name
+			if t, f := c.lenBound(rs.Results[0], "deps["+pn+"]"); t == 0 && f == 1 {
+				k2 = true
+			}
+			return true
+		})
+	}
 	r.check(k2, "K2", c.Pos(second), "a package is selected only after its dependency set was tested empty", "the ordering loop can select a package whose dependency set is not empty: a package is initialised before a package it imports")
 	// K3: deletes
 	dels := map[string]int{}
@@ -844,13 +898,14 @@ func ruleLitDelegate(c *Ctx, r *R) {
 		"token.Char":    {"strconv.UnquoteChar(t.Text[1:<+len(t.Text) -1>], 39)#0"},
 		"token.Unquote": {"strconv.Unquote(t.Text)#0"},
 		"token.Float64": {"strconv.ParseFloat(t.Text, 64)#0"},
-		"token.Int":     {"int(strconv.ParseInt(t.Text[2:_], 16, 0)#0)", "int(strconv.ParseInt(t.Text[1:_], 8, 0)#0)", "int(strconv.Atoi(t.Text)#0)"},
+		"token.Int":     {"strconv.ParseInt(t.Text[2:_], 16, 0)#0", "strconv.ParseInt(t.Text[1:_], 8, 0)#0", "strconv.Atoi(t.Text)#0"},
 	}
 	for _, fn := range sortedKeys(want) {
 		ps := c.pathsOf(fn, func(in *Interp) {
 			in.NoLin = false
 			in.NoReturn = func(o types.Object) bool { return o.Name() == "panicf" }
 		})
+		// the panicking paths of an inlined helper are dropped by the interpreter; only returning paths remain
 		if ps == nil {
 			r.undecided(fn, "-", "not found")
 			continue
@@ -858,7 +913,7 @@ func ruleLitDelegate(c *Ctx, r *R) {
 		rets := map[string]bool{}
 		for _, p := range ps {
 			if p.Done == "return" && len(p.Ret) == 1 {
-				rets[p.Ret[0].String()] = true
+				rets[stripIntConv(p.Ret[0]).String()] = true // integer conversions of the decoded value are immaterial
 			}
 		}
 		good := len(rets) == len(want[fn])
